@@ -83,7 +83,7 @@ func c17Slot(t *rapid.T, label string, table []string) string {
 
 var (
 	c17KindsQuick = c17Slots(64, "aes256-gcm96", 9, "ed25519", 8, "chacha20-poly1305", 7, "ecdsa-p256", 6, "aes128-gcm96", 7, "xchacha20-poly1305", 7,
-		"ecdsa-p384", 4, "hmac", 5, "ecdsa-p521", 4, "rsa-2048", 1)
+		"ecdsa-p384", 4, "hmac", 5, "ecdsa-p521", 4, "rsa-2048", 2)
 	c17KindsThorough = c17Slots(128, "aes256-gcm96", 16, "ed25519", 15, "chacha20-poly1305", 14, "ecdsa-p256", 11, "aes128-gcm96", 14, "xchacha20-poly1305", 14,
 		"ecdsa-p384", 8, "hmac", 10, "ecdsa-p521", 8, "rsa-2048", 7, "rsa-3072", 2)
 
@@ -306,11 +306,10 @@ func (a *c17API) drawAD(t *rapid.T) []byte {
 	if !a.kind.aead {
 		return nil
 	}
-	i := rapid.IntRange(0, len(a.adPool)).Draw(t, "adIdx")
-	if i == len(a.adPool) {
+	if rapid.Bool().Draw(t, "noAD") {
 		return nil
 	}
-	return a.adPool[i]
+	return a.adPool[rapid.IntRange(0, len(a.adPool)-1).Draw(t, "adIdx")]
 }
 
 // versionRefused says whether an explicit key_version must be refused for encrypt / sign / rewrap.
@@ -373,6 +372,9 @@ func (a *c17API) actConfig(t *rapid.T) {
 	drawV := func(label string) int {
 		if rapid.Bool().Draw(t, label+"Wild") && rapid.Bool().Draw(t, label+"Wild2") {
 			return rapid.SampledFrom([]int{-1, 0, m.latest + 1, m.latest + 3}).Draw(t, label+"Odd")
+		}
+		if label == "minEnc" && rapid.Bool().Draw(t, label+"Set") {
+			return rapid.IntRange(m.minDec, m.latest).Draw(t, label+"AboveDec")
 		}
 		return rapid.IntRange(0, m.latest).Draw(t, label)
 	}
@@ -528,7 +530,7 @@ type c17EncItem struct {
 
 func (a *c17API) drawEncItem(t *rapid.T, allowInvalid bool) c17EncItem {
 	it := c17EncItem{pt: a.drawPlaintext(t), ctx: a.drawCtx(t), ad: a.drawAD(t)}
-	if rapid.Bool().Draw(t, "explicitVersion") {
+	if rapid.Bool().Draw(t, "explicitVersion") && rapid.Bool().Draw(t, "explicitVersion2") {
 		it.ver = rapid.IntRange(-1, a.m.latest+1).Draw(t, "keyVersion")
 		if rapid.Bool().Draw(t, "versionInRange") {
 			it.ver = rapid.IntRange(1, a.m.latest).Draw(t, "keyVersionIn")
@@ -678,6 +680,8 @@ type c17DecItem struct {
 	sameAs   bool // must behave like the unmodified ciphertext
 }
 
+func (it c17RewrapItem) String() string { return fmt.Sprintf("{%v key_version=%d}", it.d, it.ver) }
+
 func (it c17DecItem) String() string {
 	return fmt.Sprintf("{%s of v%d -> %s ctx=%x ad=%x}", it.mk, it.e.ver, verifx.Trunc(it.text, 24), it.ctx, it.ad)
 }
@@ -701,7 +705,7 @@ func (a *c17API) drawOtherVersion(t *rapid.T, v int) int {
 
 func (a *c17API) drawDecItem(t *rapid.T, e *c17Entry, forRewrap bool) c17DecItem {
 	it := c17DecItem{e: e, mk: "none", text: e.text, ctx: e.ctx, ad: e.ad}
-	if !rapid.Bool().Draw(t, "mutate") {
+	if !rapid.Bool().Draw(t, "mutate") || (forRewrap && rapid.Bool().Draw(t, "mutateLess")) {
 		return it
 	}
 	kinds := []string{"flipbit", "flipbit", "ver-other", "ver-other", "ver-missing", "ver-zero", "strip-prefix", "truncate"}
@@ -866,7 +870,17 @@ type c17RewrapItem struct {
 }
 
 func (a *c17API) drawRewrapItem(t *rapid.T) c17RewrapItem {
-	it := c17RewrapItem{d: a.drawDecItem(t, a.pick(t, "ct"), true)}
+	e := a.pick(t, "ct")
+	if e.ad != nil {
+		// rewrap cannot pass associated data: mostly choose a source that does not need it
+		for _, x := range a.entries {
+			if x.kind == "ct" && x.ad == nil && rapid.Bool().Draw(t, "preferNoAD") {
+				e = x
+				break
+			}
+		}
+	}
+	it := c17RewrapItem{d: a.drawDecItem(t, e, true)}
 	if rapid.Bool().Draw(t, "explicitVersion") && rapid.Bool().Draw(t, "explicitVersion2") {
 		it.ver = rapid.IntRange(-1, a.m.latest+1).Draw(t, "keyVersion")
 	}
@@ -888,19 +902,17 @@ func (it c17RewrapItem) request() map[string]any {
 func (a *c17API) checkRewrapResult(t *rapid.T, where string, it c17RewrapItem, ct string, keyVersion int, errText string) {
 	e := it.d.e
 	a.noteUse(e)
+	// the source must decrypt without associated data (rewrap has no such parameter) and the target version must be allowed
 	srcOK := a.usable(e.ver) && e.ad == nil && (it.d.mk == "none" || it.d.sameAs)
-	mustFail := !srcOK && !it.d.mayEqual || a.versionRefused(it.ver) || !a.usable(e.ver)
-	if e.ad != nil {
-		mustFail = true // rewrap takes no associated data, so the source cannot be authenticated
-	}
+	expectOK := srcOK && !a.versionRefused(it.ver)
 	if errText != "" || ct == "" {
-		if srcOK && !a.versionRefused(it.ver) {
+		if expectOK {
 			a.viol(t, "rewrap-refused-valid", "%s: rewrap of a usable version %d ciphertext (latest %d, min_decryption_version %d, key_version %d) failed: %q", where, e.ver, a.m.latest, a.m.minDec, it.ver, errText)
 		}
 		a.rec.Class("rewrap:refused", 1)
 		return
 	}
-	if mustFail {
+	if !expectOK {
 		sig := "rewrap-invalid-accepted"
 		switch {
 		case e.ver < a.m.minDec:
@@ -910,7 +922,7 @@ func (a *c17API) checkRewrapResult(t *rapid.T, where string, it c17RewrapItem, c
 		case it.d.mk != "none":
 			sig = "mutation-accepted:" + it.d.mk
 		}
-		a.viol(t, sig, "%s: rewrap of %v with key_version=%d succeeded (%s) although it must be refused (latest %d, min_decryption_version %d, min_encryption_version %d)", where, it.d, it.ver, verifx.Trunc(ct, 40), a.m.latest, a.m.minDec, a.m.minEnc)
+		a.viol(t, sig, "%s: rewrap of %v (associated data %x) with key_version=%d succeeded (%s) although it must be refused (latest %d, min_decryption_version %d, min_encryption_version %d)", where, it.d, e.ad, it.ver, verifx.Trunc(ct, 40), a.m.latest, a.m.minDec, a.m.minEnc)
 	}
 	want := a.wantVersion(it.ver)
 	gotVer, _, ok := c17Split(ct)
@@ -939,7 +951,7 @@ func (a *c17API) checkRewrapResult(t *rapid.T, where string, it c17RewrapItem, c
 
 func (a *c17API) actRewrap(t *rapid.T) {
 	it := a.drawRewrapItem(t)
-	a.step("rewrap{%v key_version=%d}", it.d, it.ver)
+	a.step("rewrap%v", it)
 	r := a.call(t, logical.UpdateOperation, "rewrap/"+c17Key, it.request())
 	ct, kv, errText := "", 0, ""
 	if r.ok {
@@ -965,6 +977,20 @@ func (a *c17API) actRewrapBatch(t *rapid.T) {
 	}
 	a.step("rewrap-batch%v", items)
 	r := a.call(t, logical.UpdateOperation, "rewrap/"+c17Key, map[string]any{"batch_input": in})
+	if len(r.batch) == 0 && !r.ok {
+		// rewrap aborts the whole batch when an item fails with a non-user error (e.g. a corrupted RSA ciphertext):
+		// tolerated here as long as some item really had to fail; nothing was rewrapped, so nothing else to check
+		for _, it := range items {
+			e := it.d.e
+			a.noteUse(e)
+			if !(a.usable(e.ver) && e.ad == nil && (it.d.mk == "none" || it.d.sameAs)) || a.versionRefused(it.ver) {
+				a.rec.Class("batch:aborted", 1)
+				return
+			}
+		}
+		a.viol(t, "rewrap-refused-valid", "rewrap batch of %d valid items failed as a whole: %q", n, r.err)
+		return
+	}
 	if len(r.batch) != n {
 		a.viol(t, "batch-results-missing", "rewrap batch of %d items returned %d results (ok=%v err=%q)", n, len(r.batch), r.ok, r.err)
 		return
